@@ -1091,9 +1091,23 @@ class Tr:
                 vts = [(st.target.id, itt[1])]
                 pat = esc(st.target.id)
             saved = {v: self.locals.get(v) for v, _ in vts}
+            # a loop target that is also a declared local (accepted by `scope_analysis` only where the two uses
+            # cannot meet): Lean does not let a `for` binding shadow a `let mut`, the element gets a fresh name
+            ren = {}
+            if not isinstance(st.target, ast.Tuple) and id(st) in self.shadowing:
+                v = st.target.id
+                ren[v] = self.fresh(v); pat = esc(ren[v])
             for v, vt in vts: self.locals[v] = vt
             self.emit(ind, f'for {pat} in {it} do')
+            saved_narrow = {}
+            for v, nv in ren.items():
+                key = ast.dump(ast.Name(id=v, ctx=ast.Load()))
+                saved_narrow[key] = self.narrow.get(key)
+                self.narrow[key] = (esc(nv), self.locals[v])
             self.body(ind + 1, st.body)
+            for key, old in saved_narrow.items():
+                if old is None: self.narrow.pop(key, None)
+                else: self.narrow[key] = old
             for v, _ in vts:
                 if saved[v] is None: del self.locals[v]
                 else: self.locals[v] = saved[v]
@@ -1227,6 +1241,7 @@ class Tr:
         walk_block(fn.body, ())
         self.skip_locals = set()
         self.hoist: dict[tuple, list[str]] = {}     # (block id, stmt index) -> names to declare in front of it
+        self.shadowing: set[int] = set()            # `for v in ..` statements in the scope of a declared local v
         for v, lst in occ.items():
             if v in ('logger', 'logging', 'json'): continue
             if not any(a for _, a, _ in lst): continue            # never assigned here: not a local
@@ -1253,6 +1268,8 @@ class Tr:
             direct = any(a and len(p) == k and p[k - 1][1] == first for p, a, _ in lst)
             if not direct:
                 self.hoist.setdefault((blk, first), []).append(v)
+            for lp in loop_stmts.get(v, []):            # `for v` statements inside the block that declares the local v
+                if any(b == blk for b, _ in lp): self.shadowing.add(id(self.block_of[lp[-1][0]][lp[-1][1]]))
 
     DEFAULTS = {'bool': 'false', 'int': '0', 'str': '""', 'node': '0', 'att': '0'}
     def default_of(self, t):
